@@ -200,9 +200,29 @@ def bounded_sequences(ctx, b):
             b.guard(("seq", a[:40], s), one, sample={"detected_before": a[:60], "string": s})
 
 
+def bounded_first_frame(ctx, b):
+    """a cue that starts and ends within the first 40 ms (one MicroDVD frame), alone and followed by another cue"""
+    pairs = [(SRTWriter, SRTReader), (WebVTTWriter, WebVTTReader), (DFXPWriter, DFXPReader), (SAMIWriter, SAMIReader),
+             (MicroDVDWriter, MicroDVDReader)]
+    for spans in ([(0, 30000)], [(0, 30000), (10 ** 6, 2 * 10 ** 6)], [(1000, 39000), (50000, 90000)]):
+        cs = CaptionSet({"en-US": CaptionList([Caption(s_, e_, [T("hello")]) for s_, e_ in spans])})
+        for Wr, Rd in pairs:
+            def one(Wr=Wr, Rd=Rd, cs=cs):
+                doc = Wr().write(cs)
+                got = detect_format(doc)
+                if got is not Rd:
+                    return False, {"writer_output_detected_as": repr(got), "doc": doc[:200]}
+                back = Rd().read(doc)
+                return sum(len(back.get_captions(l)) for l in back.get_languages()) >= 1, {"doc": doc[:200]}
+            b.guard(("first_frame", Wr.__name__, tuple(spans)), one,
+                    sample={"writer": Wr.__name__, "spans": spans, "cue_within_the_first_microdvd_frame": Wr is MicroDVDWriter})
+
+
 def run(ctx):
     P = ctx.prove
     ctx.ground("SUPPORTED_READERS/order", order_is_documented)
+    ctx.bounded("first_frame", "caption sets whose first cue lies within the first 40 ms, through the five text writers: "
+                "detected as the writer's format and read back", lambda b: bounded_first_frame(ctx, b))
     ctx.frame("detection_has_no_memory", detection_has_no_memory)
     ctx.bounded("sequences", "every ordered pair (a document of each format or of none detected first, then one of 14 strings "
                 "that several readers or none accept): the second answer is the first accepting reader of the documented "
